@@ -402,7 +402,7 @@ def run(ctx):
             # already existed means no new entry was stored, i.e. two monitors share one entry (one demonitor removes both)
             rets = []
             for bb, j, st in Bm.stmts():
-                if st['k'] == '=' and st['pl']['l'] == 0 and not st['pl'].get('p') and st['rv']['k'] == 'agg' and st['rv'].get('var') == 'Ok':
+                if st['k'] == '=' and Bm.is_ret_slot(st['pl']['l']) and not st['pl'].get('p') and st['rv']['k'] == 'agg' and st['rv'].get('var') == 'Ok':
                     ro = unwrap(Bm.origin(st['rv']['ops'][0]))[0]
                     rets.append(ro[0] == 'call' and ro[2] == mrs[0][0])
             ret_ok = bool(rets) and all(rets)
